@@ -26,7 +26,10 @@ import (
 	"net/http"
 	"net/http/httptest"
 	"os"
+	"reflect"
+	"runtime"
 	"sort"
+	"strings"
 	"sync"
 	"sync/atomic"
 	"testing"
@@ -79,7 +82,7 @@ type c9Case struct {
 	Schedule []c9Step   `json:"schedule"`
 	Share    bool       `json:"share"`
 	// distrib
-	Scenario string `json:"scenario"` // idle | busy | overload
+	Scenario string `json:"scenario"` // idle | busy | overload ; locktrace: writer kind track | dup | activate
 	Workers  int    `json:"workers"`
 	Messages int    `json:"messages"`
 	Trials   int    `json:"trials"`
@@ -150,6 +153,12 @@ type c9Result struct {
 	Panics      []string       `json:"panics"`
 	StressKind  string         `json:"stress_kind"`
 	Adds        int64          `json:"adds"`
+	// locktrace / watchdog
+	Deadlock     bool   `json:"deadlock"`
+	DepthAtScan  int    `json:"depth_at_scan"`
+	WriterQueued bool   `json:"writer_queued"`
+	Progress     string `json:"progress"`
+	Stacks       string `json:"stacks"`
 }
 
 // ---------------------------------------------------------------- fixtures
@@ -756,6 +765,119 @@ func c9RunDistrib(c c9Case) (res c9Result) {
 	return res
 }
 
+
+// ---------------------------------------------------------------- locktrace mode
+
+// readerCount of a sync.RWMutex: number of read locks held (pending writer: shifted by -1<<30).
+func c9ReaderCount(m *sync.RWMutex) int64 {
+	f := reflect.ValueOf(m).Elem().FieldByName("readerCount")
+	if f.Kind() == reflect.Struct {
+		f = f.FieldByName("v")
+	}
+	return f.Int()
+}
+
+func c9Stacks() string {
+	buf := make([]byte, 1<<20)
+	n := runtime.Stack(buf, true)
+	out := string(buf[:n])
+	// keep the goroutines that sit in the registration table's lock
+	var keep []string
+	for _, g := range strings.Split(out, "\n\n") {
+		if strings.Contains(g, "RegisteredDecoys") && (strings.Contains(g, "RWMutex") || strings.Contains(g, "sync.")) {
+			lines := strings.Split(g, "\n")
+			if len(lines) > 14 {
+				lines = lines[:14]
+			}
+			keep = append(keep, strings.Join(lines, "\n"))
+		}
+	}
+	s := strings.Join(keep, "\n\n")
+	if len(s) > 6000 {
+		s = s[:6000]
+	}
+	return s
+}
+
+// The sweeper is held inside its read section (at the "sweep:scan" point, read lock taken) until a
+// writer is queued for the lock; then it is released.  A read section that takes the read lock
+// once completes and lets the writer in; one that takes it again queues behind the writer for good.
+func c9RunLocktrace(c c9Case) (res c9Result) {
+	tester := &c9Tester{f: func(string, uint16) (bool, error) { return false, fmt.Errorf("not live (scripted)") }}
+	rm := c9Manager(c9Conf(c9Policy{}, false, ""), tester)
+	rm.registeredDecoys.registerForDetector = func(*DecoyRegistration) {}
+	rm.registeredDecoys.updateInDetector = func(*DecoyRegistration) {}
+	var regs []*DecoyRegistration
+	for _, r := range c.Regs {
+		d := c9MakeReg(r)
+		regs = append(regs, d)
+	}
+	// everything but the last registration is ingested beforehand
+	for _, d := range regs[:len(regs)-1] {
+		rm.ingestRegistration(d)
+	}
+	atScan := make(chan struct{})
+	goOn := make(chan struct{})
+	var once sync.Once
+	verifhook.Set(func(point string, subject any) {
+		if point == "sweep:scan" {
+			once.Do(func() {
+				close(atScan)
+				<-goOn
+			})
+		}
+	})
+	defer verifhook.Set(nil)
+	sweepDone := make(chan struct{})
+	go func() { defer close(sweepDone); rm.RemoveOldRegistrations() }()
+	select {
+	case <-atScan:
+	case <-time.After(4 * time.Second):
+		res.Error = "sweeper did not reach its scan point"
+		return
+	}
+	m := &rm.registeredDecoys.m
+	res.DepthAtScan = int(c9ReaderCount(m))
+	writerDone := make(chan struct{})
+	go func() {
+		defer close(writerDone)
+		switch c.Scenario {
+		case "activate":
+			rm.MarkActive(regs[0])
+		case "dup":
+			rm.ingestRegistration(c9MakeReg(c.Regs[0]))
+		default:
+			rm.ingestRegistration(regs[len(regs)-1])
+		}
+	}()
+	// wait until the writer is queued behind the sweeper's read lock
+	dl := time.Now().Add(4 * time.Second)
+	for time.Now().Before(dl) {
+		if c9ReaderCount(m) < 0 {
+			res.WriterQueued = true
+			break
+		}
+		time.Sleep(200 * time.Microsecond)
+	}
+	close(goOn)
+	deadline := time.After(4 * time.Second)
+	for _, ch := range []chan struct{}{sweepDone, writerDone} {
+		select {
+		case <-ch:
+		case <-deadline:
+			res.Deadlock = true
+		}
+		if res.Deadlock {
+			break
+		}
+	}
+	if res.Deadlock {
+		res.Stacks = c9Stacks()
+		res.Progress = "sweeper and writer did not finish within 4 s of the sweeper being released"
+	}
+	return res
+}
+
 // ---------------------------------------------------------------- stress mode
 
 func c9RunStress(c c9Case) (res c9Result) {
@@ -794,6 +916,7 @@ func c9RunStress(c c9Case) (res c9Result) {
 	}
 	stop := make(chan struct{})
 	var bg sync.WaitGroup
+	var nSweeps, nIngests, nLookups int64
 	// sweeper
 	bg.Add(1)
 	go func() {
@@ -805,6 +928,7 @@ func c9RunStress(c c9Case) (res c9Result) {
 			default:
 			}
 			guard(func() { rm.RemoveOldRegistrations() })
+			atomic.AddInt64(&nSweeps, 1)
 			time.Sleep(100 * time.Microsecond)
 		}
 	}()
@@ -852,6 +976,7 @@ func c9RunStress(c c9Case) (res c9Result) {
 							rm.MarkActive(d)
 						}
 					})
+					atomic.AddInt64(&nLookups, 1)
 				}
 				time.Sleep(50 * time.Microsecond)
 			}
@@ -891,26 +1016,52 @@ func c9RunStress(c c9Case) (res c9Result) {
 		}()
 	}
 	// workers: every round ingests each registration of the case from Goroutines goroutines
-	for round := 0; round < c.Rounds; round++ {
-		var wg sync.WaitGroup
-		for g := 0; g < c.Goroutines; g++ {
-			for _, r := range c.Regs {
-				r := r
-				d := c9MakeReg(r)
-				mu.Lock()
-				keyOfObj[d] = r.Key
-				mu.Unlock()
-				wg.Add(1)
-				go func() {
-					defer wg.Done()
-					guard(func() { rm.ingestRegistration(d) })
-				}()
+	finished := make(chan struct{})
+	go func() {
+		defer close(finished)
+		for round := 0; round < c.Rounds; round++ {
+			var wg sync.WaitGroup
+			for g := 0; g < c.Goroutines; g++ {
+				for _, r := range c.Regs {
+					r := r
+					d := c9MakeReg(r)
+					mu.Lock()
+					keyOfObj[d] = r.Key
+					mu.Unlock()
+					wg.Add(1)
+					go func() {
+						defer wg.Done()
+						guard(func() { rm.ingestRegistration(d) })
+						atomic.AddInt64(&nIngests, 1)
+					}()
+				}
 			}
+			wg.Wait()
 		}
-		wg.Wait()
+		close(stop)
+		bg.Wait()
+	}()
+	// watchdog: no progress of any kind for 4 s = the pipeline is wedged; report it and move on
+	// (the goroutines are left behind, the manager is not used again)
+	last, lastAt := int64(-1), time.Now()
+watch:
+	for {
+		select {
+		case <-finished:
+			break watch
+		case <-time.After(100 * time.Millisecond):
+		}
+		p := atomic.LoadInt64(&nSweeps) + atomic.LoadInt64(&nIngests) + atomic.LoadInt64(&nLookups)
+		if p != last {
+			last, lastAt = p, time.Now()
+		} else if time.Since(lastAt) > 4*time.Second {
+			res.Deadlock = true
+			res.Progress = fmt.Sprintf("no progress for 4s: %d sweeps, %d/%d ingests, %d lookups completed", atomic.LoadInt64(&nSweeps),
+				atomic.LoadInt64(&nIngests), c.Rounds*c.Goroutines*len(c.Regs), atomic.LoadInt64(&nLookups))
+			res.Stacks = c9Stacks()
+			return res
+		}
 	}
-	close(stop)
-	bg.Wait()
 	rd := rm.registeredDecoys
 	rd.m.RLock()
 	n := 0
@@ -960,6 +1111,8 @@ func TestVerifC09(t *testing.T) {
 				res[i] = c9RunDistrib(c)
 			case "stress":
 				res[i] = c9RunStress(c)
+			case "locktrace":
+				res[i] = c9RunLocktrace(c)
 			}
 		}()
 	}
